@@ -3,16 +3,31 @@
 (* C10 -- lock discipline of the shared collections of golib (util/hmap,   *)
 (* util/list LinkedList, util/queue RequestQueue / RequestDoubleQueue).    *)
 (*                                                                         *)
-(* Each instance carries ONE non-reentrant mutex.  A thread executing a    *)
-(* public method goes through the method's steps                           *)
+(* Each instance carries ONE lock: a non-reentrant mutex, or a readers-     *)
+(* writer lock (sync.RWMutex: any number of holders in SHARED mode or one   *)
+(* in exclusive mode; a thread that has announced an exclusive acquisition  *)
+(* keeps new shared holders out -- Go's writer preference -- so taking the  *)
+(* lock in shared mode twice on one thread can deadlock against a writer).  *)
+(* A thread executing a public method goes through the method's steps       *)
 (*                                                                         *)
-(*   acq / rel      take / release the lock of the object the method runs  *)
-(*                  on (Cond.Wait is rel followed by acq, both a = "wait") *)
-(*   call  a b      run method b of the same object (a = "") or of the     *)
+(*   acq / rel      take / release the lock of the object the step is about *)
+(*                  (a = "shared": RLock / RUnlock; Cond.Wait is rel        *)
+(*                  followed by acq, both a = "wait")                      *)
+(*   call  a b      run method b of the object (a = "") or of the          *)
 (*                  sub-object held in field a (a collection with its own  *)
 (*                  lock: the list inside a queue); the callee runs its    *)
 (*                  own steps, including its own acq                       *)
-(*   acc   r w      read the fields r and write the fields w of the object *)
+(*   acc   r w      read the locations r and write the locations w of the  *)
+(*                  object: f = field f, f* = the elements behind the      *)
+(*                  slice field f, *.n = field n of some node of the       *)
+(*                  instance                                               *)
+(*                                                                         *)
+(* Every step is about the receiver (o = "") or about the PEER: another    *)
+(* instance of a collection type handed in as the parameter named o        *)
+(* (PutAll(other)).  Which object the peer is belongs to the scenario: a   *)
+(* second instance, the receiver ITSELF (m.PutAll(m)), or -- two threads   *)
+(* -- each thread's receiver is the other thread's peer (a.PutAll(b)       *)
+(* against b.PutAll(a)).                                                   *)
 (*                                                                         *)
 (* The step lists are NOT written here: they are extracted from the golib  *)
 (* source on every run (harness/c10/extract.go, a go/ast pass) and read    *)
@@ -34,7 +49,10 @@
 (*                     accesses of the same field of the same object, one  *)
 (*                     of them a write.  (Both being there at once is      *)
 (*                     exactly "no common lock protects the two accesses": *)
-(*                     a common lock could not be held by both.)           *)
+(*                     a common lock could not be held by both -- unless   *)
+(*                     both hold it in SHARED mode: a step that writes      *)
+(*                     while its thread holds the lock only in shared mode  *)
+(*                     races with every other shared holder.)              *)
 (*                                                                         *)
 (* Which public methods are POINT operations is part of the property (put, *)
 (* add, get, contains, remove, remove-first/last, clear, size, enqueue,    *)
@@ -59,6 +77,11 @@ Pubs(ty)        == Table[ty].pubs                 \* sequence of the public meth
 SeqRange(s)     == {s[i] : i \in 1..Len(s)}
 SubFields(ty)   == {Table[ty].sub[i][1] : i \in 1..Len(Table[ty].sub)}
 SubType(ty, f)  == Table[ty].sub[CHOOSE i \in 1..Len(Table[ty].sub) : Table[ty].sub[i][1] = f][2]
+LockKind(ty)    == Table[ty].lockkind             \* "mutex" | "rwmutex" | "cond" | "none"
+\* the parameters of method m that hold another instance of a collection type: <<parameter, type>>
+PeersOf(ty, m)  == Table[ty].methods[m].peers
+PeerType(ty, m, p) == LET ps == PeersOf(ty, m) IN ps[CHOOSE i \in 1..Len(ps) : ps[i][1] = p][2]
+TakesPeer(ty, m)   == \E i \in 1..Len(PeersOf(ty, m)) : PeersOf(ty, m)[i][2] = ty   \* m(other *ty)
 
 \* ---- the point operations (from the property statement) -------------------
 PointOps == {"Put", "PutFirst", "PutLast", "Add", "AddFirst", "AddLast", "AddNoOver", "AddIfExist", "Unipoint",
@@ -69,57 +92,95 @@ PointOps == {"Put", "PutFirst", "PutLast", "Add", "AddFirst", "AddLast", "AddNoO
 IsPoint(m) == m \in PointOps
 
 \* ---- state -------------------------------------------------------------------
-VARIABLES scen,   \* the scenario: [ty |-> type, ms |-> <<m>> or <<m1, m2>>] (ms[t] runs on thread t)
-          stk,    \* stk[t]: call stack, frames [o |-> object path, ty, m, pc]
-          held,   \* held[t]: the objects whose lock t holds
+VARIABLES scen,   \* the scenario: [kind |-> "alone" | "pair" | "alias" | "cross", ty |-> type, ms |-> <<m>> or <<m1, m2>>]
+                  \* (ms[t] runs on thread t)
+          stk,    \* stk[t]: call stack, frames [o |-> object path, ty, m, pc, peer |-> the object its peer parameters hold]
+          held,   \* held[t]: the locks t holds, in the order taken: <<object, "x" (exclusive) | "s" (shared)>>
+          pend,   \* pend[t]: <<o>> when t has announced an exclusive acquisition of the readers-writer lock of o
+                  \* and waits for the shared holders to leave; else <<>>
           secs    \* secs[t]: critical sections on the instance lock t's call has completed (0, 1, 2 = more)
-vars == <<scen, stk, held, secs>>
+vars == <<scen, stk, held, pend, secs>>
 
-Root == <<>>                                   \* the instance itself; <<"queue">> = the list in its field queue
-Frame(o, ty, m) == [o |-> o, ty |-> ty, m |-> m, pc |-> 1]
+Root  == <<>>                                  \* the first instance; <<"queue">> = the list in its field queue
+Other == <<"@">>                               \* the second instance ("@" is no field name)
+Frame(o, ty, m, peer) == [o |-> o, ty |-> ty, m |-> m, pc |-> 1, peer |-> peer]
 Busy(t) == stk[t] # <<>>
 Top(t)  == stk[t][Len(stk[t])]
-RetStep == [k |-> "ret"]
+RetStep == [k |-> "ret", a |-> "", b |-> "", o |-> ""]
 Cur(t)  == LET f == Top(t) IN
            IF f.pc <= Len(StepsOf(f.ty, f.m)) THEN StepsOf(f.ty, f.m)[f.pc] ELSE RetStep
-Owners(o) == {t \in Threads : o \in held[t]}
+\* the instance the current step of t is about, and its type
+ObjOf(t)   == IF Cur(t).o = "" THEN Top(t).o ELSE Top(t).peer
+ObjTyOf(t) == IF Cur(t).o = "" THEN Top(t).ty ELSE PeerType(Top(t).ty, Top(t).m, Cur(t).o)
+Own(t)     == stk[t][1].o                      \* the instance t's public call runs on
+Holds(t, o, mode) == \E i \in 1..Len(held[t]) : held[t][i] = <<o, mode>>
+Excl(o) == {t \in Threads : Holds(t, o, "x")}
+Shar(o) == {t \in Threads : Holds(t, o, "s")}
+Pend(o) == {t \in Threads : pend[t] = <<o>>}
 Advanced(s) == [s EXCEPT ![Len(s)] = [@ EXCEPT !.pc = @ + 1]]
+\* s without its last occurrence of x
+DropLast(s, x) == IF \E i \in 1..Len(s) : s[i] = x
+                  THEN LET k == CHOOSE i \in 1..Len(s) : s[i] = x /\ \A j \in (i + 1)..Len(s) : s[j] # x
+                       IN SubSeq(s, 1, k - 1) \o SubSeq(s, k + 1, Len(s))
+                  ELSE s
 
-Acquire(t) == /\ Busy(t) /\ Cur(t).k = "acq"
-              /\ Owners(Top(t).o) = {}                      \* non-reentrant: the holder itself waits too
-              /\ held' = [held EXCEPT ![t] = @ \cup {Top(t).o}]
-              /\ stk' = [stk EXCEPT ![t] = Advanced(@)]
+\* t, at an acq step, can go on.  Exclusive: nobody holds the lock in exclusive mode (non-reentrant: the holder itself
+\* waits too); on a readers-writer lock the acquisition is announced first (no other writer at work), which keeps new
+\* shared holders out, and completed when the shared holders have left.  Shared: no exclusive holder, none announced.
+CanAcq(t) == LET o == ObjOf(t) IN
+             IF Cur(t).a = "shared" THEN Excl(o) = {} /\ Pend(o) = {}
+             ELSE IF LockKind(ObjTyOf(t)) = "rwmutex"
+                  THEN IF pend[t] = <<o>> THEN Shar(o) = {} ELSE Excl(o) = {} /\ Pend(o) = {}
+                  ELSE Excl(o) = {}
+Acquire(t) == /\ Busy(t) /\ Cur(t).k = "acq" /\ CanAcq(t)
+              /\ LET o == ObjOf(t) IN
+                 IF Cur(t).a # "shared" /\ LockKind(ObjTyOf(t)) = "rwmutex" /\ pend[t] # <<o>>
+                 THEN /\ pend' = [pend EXCEPT ![t] = <<o>>]
+                      /\ UNCHANGED <<held, stk>>
+                 ELSE /\ held' = [held EXCEPT ![t] = Append(@, <<o, IF Cur(t).a = "shared" THEN "s" ELSE "x">>)]
+                      /\ pend' = [pend EXCEPT ![t] = <<>>]
+                      /\ stk' = [stk EXCEPT ![t] = Advanced(@)]
               /\ UNCHANGED <<scen, secs>>
 Release(t) == /\ Busy(t) /\ Cur(t).k = "rel"
-              /\ held' = [held EXCEPT ![t] = @ \ {Top(t).o}]
+              /\ held' = [held EXCEPT ![t] = DropLast(@, <<ObjOf(t), IF Cur(t).a = "shared" THEN "s" ELSE "x">>)]
               /\ stk' = [stk EXCEPT ![t] = Advanced(@)]
-              /\ secs' = IF Top(t).o = Root /\ Cur(t).a # "wait" /\ secs[t] < 2
+              /\ secs' = IF ObjOf(t) = Own(t) /\ Cur(t).a # "wait" /\ secs[t] < 2
                          THEN [secs EXCEPT ![t] = @ + 1] ELSE secs
-              /\ UNCHANGED scen
+              /\ UNCHANGED <<scen, pend>>
 Access(t) ==  /\ Busy(t) /\ Cur(t).k = "acc"
               /\ stk' = [stk EXCEPT ![t] = Advanced(@)]
-              /\ UNCHANGED <<scen, held, secs>>
+              /\ UNCHANGED <<scen, held, pend, secs>>
 Call(t) ==    /\ Busy(t) /\ Cur(t).k = "call"
               /\ LET f   == Top(t)
                      s   == Cur(t)
-                     o2  == IF s.a = "" THEN f.o ELSE Append(f.o, s.a)
-                     ty2 == IF s.a = "" THEN f.ty ELSE SubType(f.ty, s.a)
+                     o2  == IF s.a = "" THEN ObjOf(t) ELSE Append(ObjOf(t), s.a)
+                     ty2 == IF s.a = "" THEN ObjTyOf(t) ELSE SubType(ObjTyOf(t), s.a)
+                     p2  == IF s.o = "" THEN f.peer ELSE f.o      \* a method of the peer called from here: its peer is us
                      runs == s.b \in MethodsOf(ty2) /\ Len(StepsOf(ty2, s.b)) > 0
-                 IN stk' = [stk EXCEPT ![t] = IF runs THEN Append(Advanced(@), Frame(o2, ty2, s.b)) ELSE Advanced(@)]
-              /\ UNCHANGED <<scen, held, secs>>
+                 IN stk' = [stk EXCEPT ![t] = IF runs THEN Append(Advanced(@), Frame(o2, ty2, s.b, p2)) ELSE Advanced(@)]
+              /\ UNCHANGED <<scen, held, pend, secs>>
 Return(t) ==  /\ Busy(t) /\ Cur(t).k = "ret"
               /\ stk' = [stk EXCEPT ![t] = SubSeq(@, 1, Len(@) - 1)]
-              /\ UNCHANGED <<scen, held, secs>>
+              /\ UNCHANGED <<scen, held, pend, secs>>
 
 Next == \E t \in Threads : Acquire(t) \/ Release(t) \/ Access(t) \/ Call(t) \/ Return(t)
 
 \* ---- scenarios -------------------------------------------------------------------
 Idle == [t \in Threads |-> <<>>]
-Alone(ty, m) == /\ scen = [ty |-> ty, ms |-> <<m>>]
-                /\ stk = [Idle EXCEPT ![1] = <<Frame(Root, ty, m)>>]
-Pair(ty, m1, m2) == /\ scen = [ty |-> ty, ms |-> <<m1, m2>>]
-                    /\ stk = [Idle EXCEPT ![1] = <<Frame(Root, ty, m1)>>, ![2] = <<Frame(Root, ty, m2)>>]
-Init == /\ held = [t \in Threads |-> {}]
+\* one call; its peer parameters (if any) hold a second instance
+Alone(ty, m) == /\ scen = [kind |-> "alone", ty |-> ty, ms |-> <<m>>]
+                /\ stk = [Idle EXCEPT ![1] = <<Frame(Root, ty, m, Other)>>]
+\* two calls on one instance
+Pair(ty, m1, m2) == /\ scen = [kind |-> "pair", ty |-> ty, ms |-> <<m1, m2>>]
+                    /\ stk = [Idle EXCEPT ![1] = <<Frame(Root, ty, m1, Other)>>, ![2] = <<Frame(Root, ty, m2, Other)>>]
+\* one call handed its own receiver: x.m(x)
+Alias(ty, m) == /\ scen = [kind |-> "alias", ty |-> ty, ms |-> <<m>>]
+                /\ stk = [Idle EXCEPT ![1] = <<Frame(Root, ty, m, Root)>>]
+\* two instances handed to each other: a.m1(b) against b.m2(a)
+Cross(ty, m1, m2) == /\ scen = [kind |-> "cross", ty |-> ty, ms |-> <<m1, m2>>]
+                     /\ stk = [Idle EXCEPT ![1] = <<Frame(Root, ty, m1, Other)>>, ![2] = <<Frame(Other, ty, m2, Root)>>]
+Init == /\ held = [t \in Threads |-> <<>>]
+        /\ pend = [t \in Threads |-> <<>>]
         /\ secs = [t \in Threads |-> 0]
         /\ \E ty \in TypeNames :
              \/ \E m \in SeqRange(Pubs(ty)) : Alone(ty, m)
@@ -128,28 +189,36 @@ Init == /\ held = [t \in Threads |-> {}]
                   /\ IF PairWith = "point" THEN IsPoint(Pubs(ty)[j]) /\ i <= j
                                            ELSE IsPoint(Pubs(ty)[j]) => i <= j
                   /\ Pair(ty, Pubs(ty)[i], Pubs(ty)[j])
+             \/ \E m \in SeqRange(Pubs(ty)) : TakesPeer(ty, m) /\ Alias(ty, m)
+             \/ \E i, j \in 1..Len(Pubs(ty)) :
+                  /\ i <= j /\ TakesPeer(ty, Pubs(ty)[i]) /\ TakesPeer(ty, Pubs(ty)[j])
+                  /\ Cross(ty, Pubs(ty)[i], Pubs(ty)[j])
 
 Spec == Init /\ [][Next]_vars
 
 \* ---- the property ------------------------------------------------------------------
-SelfDeadlock(t) == Busy(t) /\ Cur(t).k = "acq" /\ Top(t).o \in held[t]
+\* t waits for a lock that only t itself could give up: the exclusive lock it holds (any mode wanted), or -- wanting
+\* exclusive -- its own shared hold
+SelfDeadlock(t) == /\ Busy(t) /\ Cur(t).k = "acq"
+                   /\ \/ Holds(t, ObjOf(t), "x")
+                      \/ Cur(t).a # "shared" /\ Holds(t, ObjOf(t), "s")
 NoSelfDeadlock  == \A t \in Threads : ~SelfDeadlock(t)
 
-Waiting(t) == Busy(t) /\ Cur(t).k = "acq" /\ Owners(Top(t).o) # {}
+Waiting(t) == Busy(t) /\ Cur(t).k = "acq" /\ ~CanAcq(t)
 NoMutualDeadlock == ~ /\ \E t \in Threads : Busy(t)
                       /\ \A t \in Threads : Busy(t) => Waiting(t)
                       /\ \A t \in Threads : ~SelfDeadlock(t)
 
-NoLeak == \A t \in Threads : ~Busy(t) => held[t] = {}
+NoLeak == \A t \in Threads : ~Busy(t) => held[t] = <<>> /\ pend[t] = <<>>
 
 \* a point operation about to open a second critical section on its instance
 Split(t) == /\ Busy(t) /\ t <= Len(scen.ms) /\ IsPoint(scen.ms[t])
-            /\ Cur(t).k = "acq" /\ Cur(t).a # "wait" /\ Top(t).o = Root /\ secs[t] >= 1
+            /\ Cur(t).k = "acq" /\ Cur(t).a # "wait" /\ ObjOf(t) = Own(t) /\ secs[t] >= 1
 NoSplit == \A t \in Threads : ~Split(t)
 
-\* the fields on which two threads conflict right now
+\* the locations on which two threads conflict right now
 ConflictOn(t1, t2) ==
-  IF Busy(t1) /\ Busy(t2) /\ Cur(t1).k = "acc" /\ Cur(t2).k = "acc" /\ Top(t1).o = Top(t2).o
+  IF Busy(t1) /\ Busy(t2) /\ Cur(t1).k = "acc" /\ Cur(t2).k = "acc" /\ ObjOf(t1) = ObjOf(t2)
   THEN LET r1 == SeqRange(Cur(t1).r) w1 == SeqRange(Cur(t1).w)
            r2 == SeqRange(Cur(t2).r) w2 == SeqRange(Cur(t2).w)
        IN (w1 \cap (r2 \cup w2)) \cup (w2 \cap r1)
@@ -162,14 +231,17 @@ Bounded == \A t \in Threads : Len(stk[t]) <= 12
 
 \* ---- consequences of the table that the code must show (trace validation) ------------
 \* executing method m of a ty object takes, at some point, the lock of the object
-\* at relative path p (<<>> = the object itself, <<"queue">> = the list in field queue)
-RECURSIVE TakesLock(_, _, _, _)
-TakesLock(ty, m, p, d) ==
+\* at relative path p (<<>> = the object itself, <<"queue">> = the list in field queue);
+\* x: in exclusive mode (what a caller parks on while somebody holds the lock in SHARED mode)
+RECURSIVE TakesLock(_, _, _, _, _)
+TakesLock(ty, m, p, d, x) ==
   /\ d > 0 /\ m \in MethodsOf(ty)
   /\ \E i \in 1..Len(StepsOf(ty, m)) :
        LET s == StepsOf(ty, m)[i] IN
-       \/ s.k = "acq" /\ p = <<>>
-       \/ s.k = "call" /\ s.a = "" /\ TakesLock(ty, s.b, p, d - 1)
-       \/ s.k = "call" /\ s.a # "" /\ p # <<>> /\ p[1] = s.a /\ TakesLock(SubType(ty, s.a), s.b, Tail(p), d - 1)
-Takes(ty, m, p) == TakesLock(ty, m, p, 8)
+       /\ s.o = ""                                   \* steps about a peer are about another instance
+       /\ \/ s.k = "acq" /\ p = <<>> /\ (x => s.a # "shared")
+          \/ s.k = "call" /\ s.a = "" /\ TakesLock(ty, s.b, p, d - 1, x)
+          \/ s.k = "call" /\ s.a # "" /\ p # <<>> /\ p[1] = s.a /\ TakesLock(SubType(ty, s.a), s.b, Tail(p), d - 1, x)
+Takes(ty, m, p)  == TakesLock(ty, m, p, 8, FALSE)
+TakesX(ty, m, p) == TakesLock(ty, m, p, 8, TRUE)
 =============================================================================
